@@ -285,7 +285,7 @@ DiffS(A, B) ==
 (* event processing                                                                    *)
 (*************************************************************************************)
 ContentMap(seq) == FoldLeft(LAMBDA acc, p : (p[1] :> p[2]) @@ acc, <<>>, seq)
-UpdateKinds == {"put", "del", "put_string", "del_string", "bulk_put", "bulk_put_string", "bulk_del", "bulk_del_string", "put_from_iter"}
+UpdateKinds == {"put", "del", "put_string", "del_string", "bulk_put", "bulk_put_string", "bulk_del", "bulk_del_string", "put_from_iter", "put_from_iter_self"}
 IsUpdate(e) == e.ev \in UpdateKinds
 
 \* the same formula (what was read back equals the contract state) instantiates several properties;
@@ -395,6 +395,12 @@ Proc(e) ==
             LET pairs == [i \in 1..Len(e.ks) |-> <<e.ks[i], e.vs[i]>>]
                 r == upd(M!MPutAll(mm, pairs), 0)
             IN [r EXCEPT !.st = IF tracked THEN Set(st, m, NoneS) ELSE st, !.fails = OutcomeFails(e)]
+      [] e.ev = "put_from_iter_self" ->
+            \* C14: put_from_iter fed by an iterator over the map itself (or another handle of it), every value
+            \* written back unchanged: element-wise puts of the same pairs succeed and leave the map as it is
+            IF ~known THEN base ELSE
+            [base EXCEPT !.st = IF tracked THEN Set(st, m, NoneS) ELSE st,
+                         !.fails = OutcomeFails(e) \cup (IF e.outcome = "ok" \/ aux.fault THEN {} ELSE {"C14.put_from_iter"})]
       [] e.ev = "includes" ->
             IF ~known THEN base ELSE
             [base EXCEPT !.fails = OutcomeFails(e) \cup
